@@ -238,7 +238,7 @@ let run clause_prefix path =
           | None -> go x' rest) in
      go { TraceScan.hs_tab = []; hs_cur = None } evs);
     (let name_of = function
-       | TraceScan.YNone | TraceScan.YInit -> ("qos01", "none")
+       | TraceScan.YNone | TraceScan.YInit -> ("qos01", "callback_not_preceded_by_its_packet")
        | TraceScan.YPub (Packet.Publish (_, m, id)) ->
          if int_of_n m.Packet.m_qos = 2 then ("pubrec_always", "publish_qos2_unanswered id=" ^ string_of_n id)
          else ("qos01", "publish_qos1_unanswered id=" ^ string_of_n id)
@@ -275,7 +275,21 @@ let run clause_prefix path =
       let (seq, text) = if deepest < Array.length items && deepest >= 0 then
           (match items.(deepest) with Ev (q, t, _) -> (q, t) | Mark (q, t) -> (q, "mark " ^ t)) else ("?", "?") in
       Printf.printf "diff %s seq=%s %s not enabled in the model (%s)%s\n" k seq text (state_summary dstate)
-        (if exhausted then " search budget exhausted" else "")
+        (if exhausted then " search budget exhausted" else "");
+      (* the monitor stopped at a watcher's report "future c completed": if in the model state reached so far
+         that future is still pending and no acknowledgement carrying its id has arrived since it was stored
+         (Client.fut_truthful on the completed future is false), the observed prefix itself breaks truthfulness *)
+      (if deepest < Array.length items && deepest >= 0 then
+         match items.(deepest) with
+         | Ev (q, _, C.EFut (c, true, _, _, _)) ->
+           (match L.assoc_opt c dstate.C.t.C.t_futs with
+            | Some f when f.C.cf_fut.Future.f_status = Future.Pending ->
+              let f' = { f with C.cf_fut = { f.C.cf_fut with Future.f_status = Future.Completed } } in
+              if not (C.fut_truthful dstate f') then
+                report "future_truthful" q ("future_completed_without_acknowledgement call=" ^ string_of_n c ^
+                                            " id=" ^ string_of_n f.C.cf_id ^ " (model state at the rejected event)")
+            | _ -> ())
+         | _ -> ())
     | Some steps ->
       L.iter (fun (seq, eo, s0, s) ->
         (match eo with
